@@ -146,6 +146,17 @@ CLAIMED["C16"] = dict(
     note="Trusted: docstring ':type x: T, default V' lines as the documented defaults; create_pressure_control's soft refusal. Known finding: "
          "a rejected call on a net lacking the component leaves a new empty table (component registered before validation).",
     ref="DESIGN.md 4/C16")
+CLAIMED["C17"] = dict(
+    technique="history-based differential testing of the toolbox against reference transforms + metamorphic physics check after relabelling",
+    text="Exploration: generated nets containing junction-pipe valves, remote pressure controllers, circulation pumps and consumers get a "
+         "generated list of 2-7 toolbox operations (reindex_junctions / pipes / elements, continuous-index functions, drop_junctions, drop_pipes, "
+         "drop_elements_at_junctions, fuse_junctions, select_subnet with generated lookups and junction sets). Before each operation the tables "
+         "are copied and a small reference implementation of the operation is applied to the copy; the real tables must equal it row for "
+         "row, every reference must resolve, after relabelling the pipeflow results must equal the previous ones up to the relabelling, and "
+         "select_subnet of the supplied region must reproduce its results.",
+    note="Trusted: the reference transforms of vp/props/c17.py (written from the docstrings); lookups respect the documented precondition "
+         "(injective, not onto labels of unmapped rows); nets without pumps / compressors for the physics part.",
+    ref="DESIGN.md 4/C17")
 NOT_YET = {}
 
 def main():
